@@ -99,7 +99,10 @@ def run(prop, tier, seed, replay):
     import astropy.cosmology
     from yaw import Configuration
 
-    ck = Check(prop, tier, seed, kernels=["k_config"], theorems=THEOREMS, lean_modules=["YawVerif.Props.C15"], rule=RULE,
+    ck = Check(prop, tier, seed, kernels=["k_config", "k_cosmo"],
+               theorems=THEOREMS + ["Yaw.C15Cosmo.parse_spec", "Yaw.C15Cosmo.yaml_spec", "Yaw.C15Cosmo.yaml_roundtrip",
+                                    "Yaw.C15Cosmo.eq_spec", "Yaw.C15Cosmo.eq_rejects_other", "Yaw.C15Cosmo.cosmo_flags"],
+               lean_modules=["YawVerif.Props.C15", "YawVerif.Props.C15Cosmo"], rule=RULE,
                assumptions=["astropy comoving_distance is strictly increasing and z_at_value inverts it to ~1e-9",
                             "np.linspace computes start + k*step with the end point set exactly"])
     ck.translate()
@@ -300,4 +303,87 @@ def run(prop, tier, seed, replay):
                 m_out, c_out = [x.strip() for x in a.split("|")]
                 if (m_out == "error") != obs:
                     ck.add_tie_break("modify outcome vs model", {"case": rep, "model": m_out, "impl_raised": obs})
+    # ---- cosmology handling: every kind of value a caller can pass as `cosmology=` -----------------------------------
+    import astropy.cosmology as AC
+    import cosmos
+    from yaw.config.combined import cosmology_to_yaml, parse_cosmology
+    from yaw.cosmology import cosmology_is_equal
+    from yaw.config import Configuration as _Cfg
+    custom1, custom2 = cosmos.get("custom")[0], cosmos.get("custom2")[0]
+    values = {
+        "None": None, "'Planck15'": "Planck15", "'WMAP9'": "WMAP9", "'NoSuchModel'": "NoSuchModel", "''": "",
+        "Planck15": AC.Planck15, "WMAP9": AC.WMAP9, "unnamed-LambdaCDM": AC.LambdaCDM(H0=70, Om0=0.3, Ode0=0.5),
+        "named-but-not-predefined": AC.FlatLambdaCDM(H0=70, Om0=0.3, name="mine"),
+        "modified-Planck15": AC.Planck15.clone(H0=71.0), "custom": custom1, "custom2": custom2, "42": 42, "dict": {"H0": 70},
+    }
+
+    def describe(v):
+        from yaw.cosmology import CustomCosmology
+        is_f, is_c = isinstance(v, AC.FLRW), isinstance(v, CustomCosmology)
+        name = v if isinstance(v, str) else (v.name if is_f else None)
+        return (v is None, isinstance(v, str), is_f, is_c, name in AC.available)
+
+    def outcome(f):
+        try:
+            return ("ok", f())
+        except Exception as e:  # noqa: BLE001
+            return ("raise:" + type(e).__name__, None)
+    creq, cexp = [], []
+    for label, v in values.items():
+        d = describe(v)
+        enc = " ".join(str(int(x)) for x in d)
+        # parse
+        st, got = outcome(lambda: parse_cosmology(v))
+        if st == "ok":
+            impl = "default" if v is None else ("named" if isinstance(v, str) else "same")
+            right = (got is AC.Planck15) if v is None else ((got is getattr(AC, v, None)) if isinstance(v, str) else (got is v))
+            if not right:
+                ck.add_violation(f"parse_cosmology({label}) returns another model ({got!r})", {"cosmology": label})
+                continue
+        else:
+            impl = st
+        spec = ("default" if v is None else (("named" if d[4] else "raise:ConfigError") if isinstance(v, str)
+                else ("same" if (d[2] or d[3]) else "raise:ConfigError")))
+        ck.count(f"cosmology:parse:{impl}")
+        ck.case(None, ("cosmo-parse", label))
+        if impl != spec:
+            ck.add_violation(f"parse_cosmology({label}): {impl}, documented: {spec}", {"cosmology": label})
+        creq.append(f"p.{len(creq)} parse {enc}")
+        cexp.append((impl, label))
+        # Configuration.create goes through the same helper and stores the parsed model
+        st2, cfg = outcome(lambda: _Cfg.create(rmin=100, rmax=1000, zmin=0.1, zmax=1.0, num_bins=3, cosmology=v))
+        if (st2 == "ok") != (st == "ok") or (st2 == "ok" and cfg.cosmology is not got):
+            ck.add_violation(f"Configuration.create(cosmology={label}) {st2} but parse_cosmology {st}", {"cosmology": label})
+        # write (objects only make sense here; strings / None are not cosmologies)
+        if not isinstance(v, str) and v is not None:
+            sty, name = outcome(lambda: cosmology_to_yaml(v))
+            implw = "name" if sty == "ok" else sty
+            specw = "name" if (d[2] and not d[3] and d[4]) else ("raise:ConfigError" if (d[3] or d[2]) else "raise:TypeError")
+            ck.case(None, ("cosmo-yaml", label))
+            if implw != specw or (sty == "ok" and getattr(AC, name, None) is not v):
+                ck.add_violation(f"cosmology_to_yaml({label}): {implw} {name!r}, documented: {specw} (the predefined model itself)",
+                                 {"cosmology": label})
+            creq.append(f"y.{len(creq)} yaml {enc}")
+            cexp.append((implw, label))
+    objs = [k for k, v in values.items() if not isinstance(v, str) and v is not None]
+    for la in objs:
+        for lb in objs:
+            a, b = values[la], values[lb]
+            da, db = describe(a), describe(b)
+            ste, val = outcome(lambda: cosmology_is_equal(a, b))
+            imple = (str(bool(val)).lower() if ste == "ok" else ste)
+            both_flrw = da[2] and db[2]
+            ae = bool(AC.cosmology_equal(a, b)) if both_flrw else False
+            valid = (da[2] or da[3]) and (db[2] or db[3])
+            spece = ("raise:TypeError" if not valid else ("true" if (da[3] and db[3]) else (str(ae).lower() if both_flrw else "false")))
+            ck.case(None, ("cosmo-eq", la, lb))
+            if imple != spece:
+                ck.add_violation(f"cosmology_is_equal({la}, {lb}) = {imple}, documented: {spece}", {"a": la, "b": lb})
+            creq.append(f"e.{len(creq)} eq {' '.join(str(int(x)) for x in da)} {' '.join(str(int(x)) for x in db)} {int(ae)}")
+            cexp.append((imple, f"{la} == {lb}"))
+    cans = ck.driver("GenCosmo", creq)
+    if cans is not None:
+        for (impl, label), a_ in zip(cexp, cans):
+            if impl != a_:
+                ck.add_tie_break("cosmology decision vs generated chain", {"value": label, "impl": impl, "model": a_})
     return ck.finish()
